@@ -43,7 +43,8 @@ func runC09(rt *rapid.T, st *stats.Collector) {
 	zc, prep := false, false
 	for i := 0; i < ncols; i++ {
 		k := gen.DrawKind(rt, "kind")
-		if rapid.IntRange(0, 2).Draw(rt, "prefer-zero-copy") == 0 {
+		switch rapid.IntRange(0, 5).Draw(rt, "prefer-zero-copy") {
+		case 0, 1:
 			var zs []*gen.Kind
 			for _, x := range gen.Kinds {
 				if x.ZeroCopy && (x.Shape == "X" || x.Shape == "Array(X)" || x.Shape == "Nullable(X)") {
@@ -51,6 +52,16 @@ func runC09(rt *rapid.T, st *stats.Collector) {
 				}
 			}
 			k = zs[rapid.IntRange(0, len(zs)-1).Draw(rt, "zc-kind")]
+		case 2:
+			// Columns that derive what they send in Prepare (Enum names -> raw values,
+			// LowCardinality values -> dictionary + keys): the derived state survives rounds.
+			var ps []*gen.Kind
+			for _, x := range gen.Kinds {
+				if x.Prep && (x.Shape == "X" || x.Shape == "LowCardinality(X)") {
+					ps = append(ps, x)
+				}
+			}
+			k = ps[rapid.IntRange(0, len(ps)-1).Draw(rt, "prep-kind")]
 		}
 		zc = zc || k.ZeroCopy
 		prep = prep || k.Prep
